@@ -25,11 +25,11 @@ def _total_seconds(td) -> cython.double:
     return days * 86400.0 + seconds + microseconds / 1000000.0
 
 
-cpdef int date_to_idx_fast(
+cpdef long long date_to_idx_fast(
     object date,
     object start_date,
-    int resolution,
-    int size,
+    long long resolution,
+    long long size,
     bint force_into_project
 ):
     """
@@ -46,13 +46,13 @@ cpdef int date_to_idx_fast(
         Scoreboard index
     """
     cdef double diff_seconds
-    cdef int idx
+    cdef long long idx
 
     # Calculate difference in seconds
     diff_seconds = _total_seconds(date - start_date)
 
     # Integer division for index
-    idx = <int>(diff_seconds / <double>resolution)
+    idx = <long long>(diff_seconds / <double>resolution)
 
     if force_into_project:
         if idx < 0:
@@ -64,10 +64,10 @@ cpdef int date_to_idx_fast(
 
 
 cpdef object idx_to_date_fast(
-    int idx,
+    object idx,
     object start_date,
-    int resolution,
-    int size,
+    long long resolution,
+    long long size,
     bint force_into_project,
     object end_date
 ):
@@ -85,28 +85,27 @@ cpdef object idx_to_date_fast(
     Returns:
         Datetime for the index
     """
-    cdef int seconds
-
+    # idx stays a Python integer: indices beyond the C integer range must be
+    # clamped (or rejected by timedelta) exactly as the pure Python version does
     if force_into_project:
         if idx < 0:
             return start_date
         if idx >= size:
             return end_date
 
-    seconds = idx * resolution
-    return start_date + timedelta(seconds=seconds)
+    return start_date + timedelta(seconds=idx * resolution)
 
 
 cpdef list collect_intervals_fast(
     list sb,
-    int start_idx,
-    int end_idx,
-    int s_idx,
-    int e_idx,
-    int min_duration_slots,
-    int size,
+    long long start_idx,
+    long long end_idx,
+    long long s_idx,
+    long long e_idx,
+    long long min_duration_slots,
+    long long size,
     object start_date,
-    int resolution,
+    long long resolution,
     object predicate,
     object interval_class
 ):
@@ -130,13 +129,13 @@ cpdef list collect_intervals_fast(
         List of TimeInterval objects
     """
     cdef list intervals = []
-    cdef int duration = 0
-    cdef int start = 0
-    cdef int idx = start_idx
-    cdef int current_idx
+    cdef long long duration = 0
+    cdef long long start = 0
+    cdef long long idx = start_idx
+    cdef long long current_idx
     cdef object val
     cdef bint pred_result
-    cdef int sb_len = len(sb)
+    cdef long long sb_len = len(sb)
 
     while idx <= end_idx:
         # Get value with boundary check
